@@ -547,6 +547,8 @@ func checkC03(w *World, r *Report) {
 	}
 	r.floor("map-ordered loops on render paths", nLoops, 15)
 
+	checkKeyComparators(w, r)
+
 	// ---- R03.2
 	exempt := map[string]string{
 		"functionRandom": "random() is randomness-dependent by definition",
